@@ -106,6 +106,8 @@ SPECS = [
     {'conv': 'cf1d', 'ny': 3, 'nx': 4, 'bounds': 'vars'}, {'conv': 'cf1d', 'ny': 3, 'nx': 4, 'bounds': 'coords'},
     {'conv': 'cf1d', 'ny': 1, 'nx': 4, 'bounds': 'vars'}, {'conv': 'cf1d', 'ny': 3, 'nx': 1, 'bounds': 'coords'},
     {'conv': 'cf1d', 'ny': 3, 'nx': 4, 'as_coords': False, 'ydim': 'y', 'xdim': 'x', 'bounds': 'vars'},
+    # stored bounds on a decreasing axis, each pair still (lower, upper): the order inside the pairs is the opposite of the axis direction
+    {'conv': 'cf1d', 'ny': 3, 'nx': 4, 'bounds': 'vars', 'descending_lat': True}, {'conv': 'cf1d', 'ny': 2, 'nx': 5, 'bounds': 'coords', 'descending_lon': True, 'descending_lat': True},
     {'conv': 'cf2d', 'ny': 3, 'nx': 4}, {'conv': 'cf2d', 'ny': 4, 'nx': 4, 'holes': [[1, 1]]},
     # a one-cell-wide river between missing cells (cells bound by NaN on both sides are blanked while bounds are synthesised)
     {'conv': 'cf2d', 'ny': 4, 'nx': 5, 'holes': [[1, 0], [1, 2], [2, 2], [3, 1], [3, 3]]}, {'conv': 'cf2d', 'ny': 4, 'nx': 5, 'holes': [[0, 0], [2, 3], [2, 4]]},
@@ -289,9 +291,21 @@ def test_union(inp):
 CLASS_OF = {'cf1d': 'CFGrid', 'cf2d': 'CFGrid', 'shoc_simple': 'CFGrid', 'shoc_standard': 'ArakawaC', 'ugrid': 'UGrid'}
 
 
+def bounds_owner(conv):
+    """the class whose `bounds` implementation a dataset of this kind uses, read from the library as it is now (a new override is a new name)"""
+    import emsarray.conventions as ec
+    import emsarray.conventions.shoc  # noqa: F401
+    name = datasets.CONVENTION_CLASS[conv]
+    klass = getattr(ec, name, None) or getattr(ec.shoc, name)
+    for k in klass.__mro__:
+        if 'bounds' in k.__dict__:
+            return 'ArakawaC' if k.__name__ == 'Convention' and conv == 'shoc_standard' else k.__name__
+    return klass.__name__
+
+
 def key_invalid(inp, detail):
     if 'differ from the bounding box of the kept polygons' in detail:
-        return f"extent:{CLASS_OF[inp['conv']]}.bounds:dropped-cell-still-in-bounds"        # per bounds implementation: another class failing is another finding
+        return f"extent:{bounds_owner(inp['conv'])}.bounds:dropped-cell-still-in-bounds"        # per bounds implementation: another class failing is another finding
     return f"invalid:{inp['conv']}"
 
 
@@ -299,7 +313,9 @@ def key_poly(inp, detail):
     if inp['spec']['conv'] in ('cf2d', 'shoc_simple') and not inp['spec'].get('bounds') and 'polygon present but' in detail:
         return 'polygons:cf2d-missing-centre-gets-polygon'
     if 'bounds' in detail and 'bounding box of the polygons' in detail:
-        return f"extent:{CLASS_OF[inp['spec']['conv']]}.bounds:bounds-override"
+        sp = inp['spec']       # per bounds implementation and per family of inputs: another class, or stored bounds, or a grid without holes is another finding
+        return (f"extent:{bounds_owner(sp['conv'])}.bounds:bounds-override:{sp['conv']}:{'stored' if sp.get('bounds') else 'synthesised'}-corners:"
+                f"{'holes' if sp.get('holes') else 'no-holes'}")
     return f"polygons:{inp['spec']['conv']}"
 
 
